@@ -132,6 +132,14 @@ class AnySeq(Opaque):
             return Builtin("anyseq." + name, lambda it, fr, a, k: None)
         if name in ("values", "items", "keys", "copy"):
             return Builtin("anyseq." + name, lambda it, fr, a, k: self)
+        if name == "get":
+            def get(it, fr, a, k):
+                # a mapping of unknown content: the key may be absent (the default) or map to an arbitrary member
+                it.ctx.notes.append(("overapprox", self.name))
+                if it.ctx.choice(2, "held-has-key") == 0:
+                    return a[1] if len(a) > 1 else None
+                return self.member(it)
+            return Builtin("anyseq.get", get)
         vm.raise_("AttributeError", name)
 
     def m_iter(self, vm):
